@@ -5,6 +5,7 @@ import PyamgV.Proofs.ExtC13Pmis
 import PyamgV.Proofs.ExtRsWholeWrap
 import PyamgV.Proofs.ExtC17R5C13Mis
 import PyamgV.Proofs.ExtC17R5Par
+import PyamgV.Proofs.ExtPy3ClassicalSplit
 
 /-! # C13 — coarse/fine splittings are well formed and cover the strength graph
 
@@ -162,5 +163,52 @@ example : (PyamgV.G.misParallel ⟨4, #[0,1,3,5,6], #[1,0,2,1,3,2]⟩ (-1) 1 0 (
     (Array.replicate 4 (-1))).1 = #[0, 1, 0, 1] := by decide
 /-- the only hypothesis of `pmis_array_form_eq` (strictly totally ordered weights) is satisfiable -/
 example : PyamgV.WOrd Rat := PyamgV.C13.ratOrd
+
+/-! ## the Python wrappers as the SOURCE has them (extension E58, Proofs/ExtPy3ClassicalSplit.lean)
+
+`harness/py2lean3_classical.py` translates `RS`, `PMIS`, `PMISc`, `CLJP`, `CLJPc`, `MIS` and `_preprocess` of
+pyamg/classical/split.py from the working tree into `Generated/PyLogic3_classical.lean` on every run (sparse matrices
+opaque; every SciPy / NumPy operation, every call of another pyamg function and every native kernel call is an event
+with the identities of its arguments).  The theorems below are about these GENERATED definitions, evaluated by the
+kernel on finite grids of scenarios (`Model/ExtPy3ClassicalWorlds.lean`: sparse or not, format csr / csc / bsr, every
+option value `False True 0 1 None`, `maxiter` None / 0 / 3 / -1, square or not, colouring method given or not).  They
+tie the call shapes the wrapper models above assume (`prepS` / `prepT` / `rsSplit` / `cljpSplit` / `pmisSplit` of
+Model/C13Wrap.lean) to the source: which matrix -- `S1 = remove_diagonal(S)` or its transpose `T1 = S1.T.tocsr()` --
+each kernel receives, in which order, into which arrays.  Partial: finite grids; the sparse operations themselves are
+opaque here (they are modelled and proved above). -/
+/-- RS: validation, `S1 = remove_diagonal(S)`, `T1 = S1.T.tocsr()`, first pass on (S1, T1, influence, splitting), second
+pass (iff `second_pass` is true) on S1 and the same splitting: result / exception class and the whole trace -/
+restate generated_rs_trace_partial := PyamgV.ExtPy3ClassicalP.rs_refines_spec
+/-- RS: the kernel calls are exactly `rsKernelShape` = the shape of `C13.rsSplit` (`RS.run (prepS S) (prepT S)`,
+`RS.pass2 (prepS S) x`): the second pass receives S1, not the transpose -/
+restate generated_rs_kernel_calls_partial := PyamgV.ExtPy3ClassicalP.rs_kernel_calls
+/-- CLJP: result and whole trace; `colorid` = 1 iff `color` is true -/
+restate generated_cljp_trace_partial := PyamgV.ExtPy3ClassicalP.cljp_refines_spec
+/-- CLJP: the kernel receives S1 and the separately built transpose T1 (`KCljp.run o (prepS S) (prepT S)`) -/
+restate generated_cljp_kernel_calls_partial := PyamgV.ExtPy3ClassicalP.cljp_kernel_calls
+/-- MIS: diagonal removed, output pre-filled with -1, `maxiter=None` reaches the kernel as -1, negative `maxiter` raises -/
+restate generated_mis_trace_partial := PyamgV.ExtPy3ClassicalP.mis_refines_spec
+/-- PMIS: `MIS(G, weights)` on what `_preprocess(remove_diagonal(S))` returned, then `_set_dirichlet(G, splitting)` -/
+restate generated_pmis_trace_partial := PyamgV.ExtPy3ClassicalP.pmis_refines_spec
+/-- PMISc: the colouring method is handed to `_preprocess`; no Dirichlet post-processing -/
+restate generated_pmisc_trace_partial := PyamgV.ExtPy3ClassicalP.pmisc_refines_spec
+/-- CLJPc = `CLJP(remove_diagonal(S), color=True)` -/
+restate generated_cljpc_trace_partial := PyamgV.ExtPy3ClassicalP.cljpc_refines_spec
+/-- `_preprocess`: pattern copy `S2`, `T2 = S2.T.tocsr()`, `G = S2 + T2` filled with ones (the fresh sum, not an
+argument), weights = row sums of the TRANSPOSE + random numbers (+ colour / number of colours) -/
+restate generated_preprocess_trace_partial := PyamgV.ExtPy3ClassicalP.preprocess_refines_spec
+/-- MIS hands ANY `weights` value on to the kernel unchanged, on every scenario of the grid -/
+restate generated_mis_any_weights_partial := PyamgV.ExtPy3ClassicalP.mis_any_weights
+/-- PMISc hands ANY `method` value on to `_preprocess(coloring_method=...)` unchanged -/
+restate generated_pmisc_any_method_partial := PyamgV.ExtPy3ClassicalP.pmisc_any_method
+/-- no split wrapper mutates its argument: no item / attribute assignment or in-place method targets the caller's
+matrix or one of its arrays, and no native kernel receives one of them -/
+restate generated_split_argument_untouched_partial := PyamgV.ExtPy3ClassicalP.split_argument_untouched
+/-- invalid input raises (`TypeError`: not sparse CSR; `ValueError`: negative `maxiter`, non-square) before any kernel -/
+restate generated_split_invalid_raises_partial := PyamgV.ExtPy3ClassicalP.split_invalid_raises
+
+/-- non-vacuity: the grid contains a valid RS scenario with the second pass, and its run calls both kernels -/
+example : (PyamgV.ExtPy3Classical.kernelCalls (PyamgV.ExtPy3ClassicalW.runRS { sparse := true, fmt := "csr", opt := .bool true }).2).length = 2 := by
+  decide +kernel
 
 end PyamgV.Props.C13
